@@ -249,6 +249,9 @@ func (Engine) Run(ctx *hk.RunCtx) error {
 }
 
 func oneCase(ctx *hk.RunCtx, r *hk.Rng, idx uint64) error {
+	if ctx.Mode == "restart" {
+		return restartCase(ctx, r, idx)
+	}
 	exotic := r.Chance(1, 3)
 	retentionMode := ctx.Mode == "retention"
 	sc := genScript(r, exotic, retentionMode)
